@@ -178,6 +178,20 @@ theorem history_judged [DecidableEq F] (norm : DevRow F → DevRow F) (nonStrict
         | .error e => .error e)) = true :=
   judge_accepts_model fo norm step.1 step.2 nonStrict fuel hf
 
+/-- **No cross-talk between creations.** A creation is a function of ITS OWN arguments (description
+    URL, options) and of the responses to ITS OWN requests (`fetch`): creations that are in flight at the
+    same time on one factory — whatever the order in which their responses arrive — are each judged
+    against their own documents and URL, and each satisfies the judge. (`creations`: for every creation
+    in flight its description and URL; the interleaving does not occur in the model because nothing is
+    shared.) -/
+theorem concurrent_judged [DecidableEq F] (norm : DevRow F → DevRow F) (nonStrict : Bool) (fuel : Nat)
+    (creations : List (DeviceSpec × Str)) (hf : ∀ c ∈ creations, c.1.depth ≤ fuel) :
+    ∀ c ∈ creations, judge fo table norm nonStrict c.2 c.1
+      (observedOf (match asyncCreateDevice fo table (serve c.2 c.1) nonStrict c.2 fuel with
+        | .ok m => .ok (flatten 0 m)
+        | .error e => .error e)) = true :=
+  fun c hc => judge_accepts_model fo norm c.1 c.2 nonStrict fuel (hf c hc)
+
 /-- **One-to-one.** The created device has exactly the services of the description, in order, with
     their types; each service's model depends on that service's description only. -/
 theorem services_one_to_one (nonStrict : Bool) (base : Str) (info : List (Option Str)) (icons : List IconSpec)
